@@ -27,15 +27,18 @@ type Subscription { ticks: Int }
 
 var hSchema *ast.Schema
 
-func Setup_C09_http()      { hSchema = gqlparser.MustLoadSchema(&ast.Source{Name: "h.graphql", Input: hSDL}) }
+func Setup_C09_http() {
+	hSchema = gqlparser.MustLoadSchema(&ast.Source{Name: "h.graphql", Input: hSDL})
+}
 func Setup_C10_bodies()    { Setup_C09_http() }
 func Setup_C09_fallbacks() { Setup_C09_http() }
 
 // hES is the executable schema fake: Exec records which operation is
 // executed (this is "a resolver ran").
 type hES struct {
-	execs []string
-	quiet bool // do not record (the harness that freezes the server graph must not write into it itself)
+	execs  []string
+	shapes []string // the fields the executed operation selects (texts that differ only in a comment's extent select differently)
+	quiet  bool     // do not record (the harness that freezes the server graph must not write into it itself)
 }
 
 func (e *hES) Schema() *ast.Schema { return hSchema }
@@ -48,6 +51,7 @@ func (e *hES) Exec(ctx context.Context) graphql.ResponseHandler {
 		return graphql.OneShot(&graphql.Response{Data: []byte(`{"ok":true}`)})
 	}
 	e.execs = append(e.execs, string(op.Operation)+":"+op.Name+hArgs(op.SelectionSet))
+	e.shapes = append(e.shapes, hShape(op.SelectionSet))
 	zzsym.Event("exec", string(op.Operation), op.Name)
 	return graphql.OneShot(&graphql.Response{Data: []byte(`{"ok":true}`)})
 }
@@ -67,6 +71,16 @@ func hArgs(set ast.SelectionSet) string {
 		}
 	}
 	return r
+}
+
+func hShape(set ast.SelectionSet) string {
+	r := "{"
+	for _, sel := range set {
+		if f, ok := sel.(*ast.Field); ok {
+			r += " " + f.Name + hShape(f.SelectionSet)
+		}
+	}
+	return r + " }"
 }
 
 // hWriter is the ResponseWriter fake; like net/http it freezes the header
@@ -113,11 +127,26 @@ var hDocs = []hDoc{
 	{`query A { me { id } } mutation B { rename(name: "x") { id } }`, "C", "", ""}, // unknown name
 	{`mutation { rename(name: "x") { id } }`, "", "mutation", ""},
 	{`subscription S { ticks }`, "S", "subscription", "S"},
-	{`{ me { nam } }`, "", "", ""}, // validation error
-	{`{ me { name }`, "", "", ""},  // parse error
-	{`{ me { name } }`, "Other", "", ""},                        // anonymous operation, a name requested
+	{`{ me { nam } }`, "", "", ""},                             // validation error
+	{`{ me { name }`, "", "", ""},                              // parse error
+	{`{ me { name } }`, "Other", "", ""},                       // anonymous operation, a name requested
 	{`mutation { rename(name: "x") { id } }`, "Other", "", ""}, // the same for a mutation
-	{``, "", "", ""},                                            // no query at all
+	// two texts that differ only in the white space inside a string literal, and two that differ only in where a comment ends
+	{`{ user(id: "a  b") { name } }`, "", "query", ""},
+	{`{ user(id: "a b") { name } }`, "", "query", ""},
+	{"{ me { id #x\n name } }", "", "query", ""},
+	{"{ me { id #x name\n } }", "", "query", ""},
+	{``, "", "", ""}, // no query at all (kept last)
+}
+
+// exec is the record hES makes when the operation the request names is executed
+func (d hDoc) exec() string {
+	r := d.kind + ":" + d.name
+	if i := strings.Index(d.query, `(id: "`); i >= 0 {
+		rest := d.query[i+6:]
+		r += "(" + rest[:strings.Index(rest, `"`)] + ")"
+	}
+	return r
 }
 
 type hAccept struct {
@@ -203,12 +232,15 @@ func Harness_C09_http() {
 	srv := hServer(es, hRespHdrs[rhi].hdr)
 	d := hDocs[zzsym.Choice("doc", len(hDocs))]
 	acc := hAccepts[zzsym.Choice("accept", len(hAccepts))]
-	get := zzsym.Choice("method", 2) == 0
+	// 0 GET, 1 POST application/json, 2 POST application/graphql, 3 POST urlencoded form, 4 POST multipart form
+	tr := zzsym.Choice("method", 2+zzsym.Param("forms", 0)*3)
+	get := tr == 0
 	r := &http.Request{Header: http.Header{}, URL: &url.URL{Path: "/query"}}
 	if acc.header != "" {
 		r.Header.Set("Accept", acc.header)
 	}
-	if get {
+	switch tr {
+	case 0:
 		r.Method = "GET"
 		v := url.Values{}
 		if d.query != "" {
@@ -219,10 +251,25 @@ func Harness_C09_http() {
 		}
 		r.URL.RawQuery = v.Encode()
 		r.Body = http.NoBody
-	} else {
+	case 1:
 		r.Method = "POST"
 		r.Header.Set("Content-Type", "application/json")
 		r.Body = io.NopCloser(strings.NewReader(hJSONBody(d)))
+	case 2:
+		// the body is the document itself: this transport has no place for an operation name
+		zzsym.Assume(d.op == "")
+		r.Method = "POST"
+		r.Header.Set("Content-Type", "application/graphql")
+		r.Body = io.NopCloser(strings.NewReader(d.query))
+	case 3:
+		r.Method = "POST"
+		r.Header.Set("Content-Type", "application/x-www-form-urlencoded")
+		r.Body = io.NopCloser(strings.NewReader(hJSONBody(d)))
+	case 4:
+		r.Method = "POST"
+		r.Header.Set("Content-Type", "multipart/form-data; boundary=B")
+		r.Body = io.NopCloser(strings.NewReader("--B\r\nContent-Disposition: form-data; name=\"operations\"\r\n\r\n" + hJSONBody(d) + "\r\n--B\r\nContent-Disposition: form-data; name=\"map\"\r\n\r\n{}\r\n--B--\r\n"))
+		srv.AddTransport(transport.MultipartForm{ResponseHeaders: hRespHdrs[rhi].hdr})
 	}
 	w := newHWriter()
 	srv.ServeHTTP(w, r)
@@ -230,6 +277,10 @@ func Harness_C09_http() {
 	hCheckBody(w)
 	wantCT := hRespHdrs[rhi].want
 	negotiated := acc.want
+	if tr >= 2 {
+		// these transports do not negotiate: application/json unless configured
+		negotiated = hJSON
+	}
 	if wantCT == "" {
 		wantCT = negotiated
 	} else if wantCT == "application/json; charset=utf-8" || wantCT == "text/x-custom" {
@@ -244,7 +295,7 @@ func Harness_C09_http() {
 		zzsym.Assert(!executed || d.kind == "query", "GET executes only query operations")
 	}
 	if executed {
-		zzsym.Assert(len(es.execs) == 1 && es.execs[0] == d.kind+":"+d.name, "exactly the operation the request names is executed, once")
+		zzsym.Assert(len(es.execs) == 1 && es.execs[0] == d.exec(), "exactly the operation the request names is executed, once")
 		zzsym.Assert(w.status == 200, "a request whose execution started is answered 200")
 		zzsym.Reach("http.executed")
 	} else {
@@ -258,6 +309,8 @@ func Harness_C09_http() {
 		zzsym.Assert(!executed, "an invalid request executes nothing")
 		if negotiated == hGRJ {
 			zzsym.Assert(w.status == 400, "invalid document: 400 under application/graphql-response+json")
+		} else if tr >= 2 && d.query == "" {
+			zzsym.Assert(w.status >= 400 && w.status < 500, "no document at all: a client error")
 		} else {
 			zzsym.Assert(w.status == 422, "invalid document: 422 under application/json")
 		}
@@ -275,6 +328,28 @@ var hBodies = []string{
 	`{"query":"fragment F on User { id }"}`, `{"query":"subscription S { ticks }"}`,
 	`{"query":"query Q($id: ID!) { user(id: $id) { name } }"}`, `{"query":"query Q($id: ID!) { user(id: $id) { name } }","variables":{"id":{"a":1}}}`,
 	`{"query":"mutation M { rename(name: \"x\") { id } }","operationName":"M"}`,
+}
+
+var hMultipartCTs = []string{"multipart/form-data; boundary=B", "multipart/form-data", "multipart/form-data; boundary=", "multipart/form-data; boundary=\"B\"; x"}
+
+func hPart(name, extra, body string) string {
+	return "--B\r\nContent-Disposition: form-data; name=\"" + name + "\"" + extra + "\r\n\r\n" + body + "\r\n"
+}
+
+var hMultipartBodies = []string{
+	hPart("operations", "", `{"query":"{ me { name } }"}`) + hPart("map", "", `{}`) + "--B--\r\n",
+	hPart("operations", "", `{"query":"{ me { name } }"}`) + "--B--\r\n",                                                                                     // no map part
+	hPart("map", "", `{}`) + hPart("operations", "", `{"query":"{ me { name } }"}`) + "--B--\r\n",                                                            // wrong order
+	hPart("operations", "", `{"query":`) + hPart("map", "", `{}`) + "--B--\r\n",                                                                              // operations is not JSON
+	hPart("operations", "", `{"query":"{ me { name } }"}`) + hPart("map", "", `[1]`) + "--B--\r\n",                                                           // map is not an object
+	hPart("operations", "", `{"query":"{ me { name } }"}`) + hPart("map", "", `{"0":[]}`) + hPart("0", `; filename="a.txt"`, "x") + "--B--\r\n",              // empty path list
+	hPart("operations", "", `{"query":"{ me { name } }"}`) + hPart("map", "", `{"0":["variables.f"]}`) + "--B--\r\n",                                         // mapped file never arrives
+	hPart("operations", "", `{"query":"{ me { name } }"}`) + hPart("map", "", `{"0":["variables.f"]}`) + hPart("1", `; filename="a.txt"`, "x") + "--B--\r\n", // a part the map does not know
+	hPart("operations", "", `{"query":"{ me { name } }","variables":{"f":null}}`) + hPart("map", "", `{"0":["variables.f","nope.x","variables.f.0"]}`) + hPart("0", `; filename="a.txt"`, "x") + "--B--\r\n",
+	hPart("operations", "", `{"query":"{ me { name } }"}`) + hPart("map", "", `{}`), // no closing boundary
+	"--B\r\nContent-Disposition: form-data; name=\"operations\"\r\n",                // ends inside the part header
+	"", "garbage", "--B--\r\n",
+	hPart("operations", "", `null`) + hPart("map", "", `null`) + "--B--\r\n",
 }
 
 var hQueryStrings = []string{
@@ -301,7 +376,13 @@ func hBodiesRun(checkCT bool) {
 	es := &hES{}
 	srv := hServer(es, nil, !checkCT)
 	r := &http.Request{Header: http.Header{}, URL: &url.URL{Path: "/query"}}
-	switch zzsym.Choice("transport", 4) {
+	switch zzsym.Choice("transport", 5) {
+	case 4:
+		// multipart form bodies through the real mime/multipart reader
+		r.Method = "POST"
+		r.Header.Set("Content-Type", hMultipartCTs[zzsym.Choice("mpct", len(hMultipartCTs))])
+		r.Body = io.NopCloser(strings.NewReader(hMultipartBodies[zzsym.Choice("mpbody", len(hMultipartBodies))]))
+		srv.AddTransport(transport.MultipartForm{})
 	case 0:
 		r.Method = "POST"
 		r.Header.Set("Content-Type", "application/json")
@@ -398,7 +479,7 @@ func Harness_C09_sequence() {
 	srv.ServeHTTP(w, mk(second, get2))
 	allowed := second.kind != "" && (!get2 || second.kind == "query")
 	if allowed {
-		zzsym.Assert(len(es.execs) == 1 && es.execs[0] == second.kind+":"+second.name && w.status == 200, "the second request executes exactly the operation it names")
+		zzsym.Assert(len(es.execs) == 1 && es.execs[0] == second.exec() && w.status == 200, "the second request executes exactly the operation it names")
 		zzsym.Reach("seq.executed")
 	} else {
 		zzsym.Assert(len(es.execs) == 0 && w.status >= 400, "the second request is refused on its own merits")
